@@ -7,6 +7,7 @@ Fixed entries suppress nothing.
 """
 import json
 import os
+import re
 
 PATH = os.path.join(os.path.dirname(os.path.dirname(os.path.dirname(os.path.abspath(__file__)))), "known_findings.json")
 
@@ -27,6 +28,8 @@ def _ok(want, got):
             return isinstance(got, str) and got.startswith(want["prefix"])
         if "subset_of" in want:
             return isinstance(got, list) and set(map(str, got)) <= set(map(str, want["subset_of"]))
+        if "regex" in want:
+            return isinstance(got, str) and re.search(want["regex"], got) is not None
         if "contains" in want:
             return isinstance(got, str) and want["contains"] in got
         return False
